@@ -402,7 +402,9 @@ def archives(draw, max_entries=12, B=4096, allow_sparse=True, allow_xattr=True, 
     if draw(st.integers(0, 3)) == 0:
         # explicit root entry
         entries.append(dict(name=prefix_style or b"./", type="dir", mode=draw(treemodel.modes()), uid=draw(idst), gid=draw(idst),
-                            mtime=draw(st.integers(0, 0xFFFFFFFF)), xattrs={}, enc=dict(fmt="ustar")))
+                            mtime=draw(st.integers(0, 0xFFFFFFFF)),
+                            xattrs=draw(treemodel.xattr_sets(max_keys=2)) if allow_xattr and draw(st.sampled_from([False, False, True])) else {},
+                            enc=dict(fmt="ustar")))
     for i in range(n):
         parent = draw(st.sampled_from(dirs))
         lenclass = draw(st.integers(0, 9))
